@@ -573,6 +573,29 @@ pub fn c09_programs() -> Vec<Arc<Prog>> {
     ]
 }
 
+/// Small programs that are explored with two preemptions also in the quick tier: a reader that
+/// creates an iterator (it holds the database mutex while it attaches to the memtable) against a
+/// writer that is already in its unlocked section, about to insert into that memtable. The
+/// memtable's reader-writer lock follows parking_lot's policy in the shim (an announced writer
+/// blocks new readers), so a shared acquisition that is repeated on one thread - a scheduling
+/// point of its own, `rw.read.recursive` - deadlocks when the writer announces itself in between.
+pub fn c09_sharp_programs() -> Vec<Arc<Prog>> {
+    let all = c09_programs();
+    let template = &all[0];
+    let p = |name: &str, setup: Vec<TOp>, threads: Vec<Vec<TOp>>| {
+        Arc::new(Prog {
+            name: name.to_string(),
+            setup,
+            threads,
+            ..(**template).clone()
+        })
+    };
+    vec![
+        p("iterscan||w", vec![Put(0, 1, 8)], vec![vec![IterScan], vec![Put(1, 2, 8)]]),
+        p("get+iterscan||batch", vec![Put(0, 1, 8)], vec![vec![Get(1), IterScan], vec![Batch(vec![(0, Some(2)), (1, Some(3))])]]),
+    ]
+}
+
 pub fn sched_assumptions(rep: &mut Report) {
     for a in SCHED_ASSUMPTIONS {
         rep.assume(a);
